@@ -22,8 +22,10 @@ ID = "C15"
 COQ_TARGETS = ["Properties/C15.vo"]
 MODEL_TARGETS = ["Model/Display.vo"]
 IMPORTS = "From Ka Require Import Model.Display.\nOpen Scope string_scope.\n"
+# long literals are slow to parse in Coq (quadratic): big integers are given in 18-digit chunks, doubles as m * 2^e
 EXTRA_DEFS = ("Definition bigZ (l : list Z) : Z := fold_left (fun a c => a * 1000000000000000000 + c)%Z l 0%Z.\n"
-              "Definition bigP (l : list Z) : positive := Z.to_pos (bigZ l).\n")
+              "Definition bigP (l : list Z) : positive := Z.to_pos (bigZ l).\n"
+              "Definition dyadic (m e : Z) : Q := if (0 <=? e)%Z then Qmake (m * 2 ^ e) 1 else Qmake m (Z.to_pos (2 ^ (- e))).\n")
 P_SET = [1, 2, 6, 12, 17]
 P_EXTRA = [0, 30]
 
@@ -121,14 +123,14 @@ def big_chunks(n):
 
 
 def coq_Zbig(n):
-    if abs(n) < 10 ** 300:
+    if abs(n) < 10 ** 40:
         return C.coq_Z(n)
     return "(bigZ %s)" % big_chunks(n) if n >= 0 else "(- bigZ %s)%%Z" % big_chunks(-n)
 
 
 def coq_pos(d):
     assert d > 0
-    if d < 10 ** 300:
+    if d < 10 ** 40:
         return "%d%%positive" % d
     return "(bigP %s)" % big_chunks(d)
 
@@ -141,6 +143,18 @@ def fx(h):
     return float.fromhex(h)
 
 
+def coq_dyadic(x):
+    """the exact rational of the finite double x as m * 2^e, m odd"""
+    q = Fraction(x)
+    n, d = q.numerator, q.denominator
+    if n == 0:
+        return "(Qmake 0 1)"
+    if d > 1:
+        return "(dyadic %s %s)" % (C.coq_Z(n), C.coq_Z(-(d.bit_length() - 1)))
+    e = (n & -n).bit_length() - 1
+    return "(dyadic %s %s)" % (C.coq_Z(n >> e), C.coq_Z(e))
+
+
 def coq_num(s):
     k = s[0]
     if k == "I":
@@ -148,7 +162,7 @@ def coq_num(s):
     if k == "F":
         return "(NFrac %s)" % coq_Q(Fraction(int(s[1]), int(s[2])))
     if k == "X":
-        return "(NFlt %s)" % coq_Q(Fraction(fx(s[1])))
+        return "(NFlt %s)" % coq_dyadic(fx(s[1]))
     raise ValueError("not a number: %r" % (s,))
 
 
@@ -928,15 +942,17 @@ def run(ctx):
             "| (_, p, v) => reentry_text p v end")
     mout = fout = None
     if ctx["model_ok"]:
-        mout = {}
-        for lane, shard in (("m", 250), ("b", 12), ("h", 2)):
-            mout[lane] = C.run_model(ctx["rundir"], "c15" + lane, IMPORTS, show, lanes[lane][0], shard=shard,
-                                     extra_defs=EXTRA_DEFS, case_type="nat * Z * value")
-        fterms = ["(%d%%nat, %s, %s)" % (k, C.coq_Z(p), coq_Q(Fraction(v))) for k, p, v in fmt_cases]
-        fout = C.run_model(ctx["rundir"], "c15f", IMPORTS,
-                           "fun c => match c with (O, p, q) => fmt_g p q | (_, p, q) => approx_text p q end",
-                           fterms, shard=400, extra_defs=EXTRA_DEFS, case_type="nat * Z * Q")
-
+        from concurrent.futures import ThreadPoolExecutor
+        fterms = ["(%d%%nat, %s, %s)" % (k, C.coq_Z(p), coq_dyadic(v) if k == 0 else coq_Q(v)) for k, p, v in fmt_cases]
+        with ThreadPoolExecutor(4) as ex:      # the four lanes overlap (the heavy one is a few long coqc runs)
+            futs = {lane: ex.submit(C.run_model, ctx["rundir"], "c15" + lane, IMPORTS, show, lanes[lane][0], shard,
+                                    EXTRA_DEFS, "nat * Z * value")
+                    for lane, shard in (("h", 2), ("b", 12), ("m", 170))}
+            ffut = ex.submit(C.run_model, ctx["rundir"], "c15f", IMPORTS,
+                             "fun c => match c with (O, p, q) => fmt_g p q | (_, p, q) => approx_text p q end",
+                             fterms, 120, EXTRA_DEFS, "nat * Z * Q")
+            mout = {lane: f.result() for lane, f in futs.items()}
+            fout = ffut.result()
     n_model = sum(len(v[0]) for v in lanes.values())
     C.log("c15: model texts (%s + %d formatter cases) after %.1fs" % ({k: len(v[0]) for k, v in lanes.items()}, len(fmt_cases), time.time() - t0))
 
